@@ -327,6 +327,17 @@ func olvmEntries() []Entry {
 		}, func(w *harness.World) *harness.TxSpec {
 			return OLVMCall(w, w.EthUsers[0], ContractAddr(w.EthUsers[1], 0), 0, zero, nil)
 		}, Entry{Changed: []string{"keeper_"}}),
+		// one transaction at whose end SEVERAL accounts are removed, all with keys new to the state tree (the
+		// order of those removals is an order of insertions into the tree). (Added after a seeded change - the
+		// removals of a transaction collected in a map and carried out in its iteration order - escaped the
+		// replica-determinism check: no history removed more than one account per transaction.)
+		olvmScenario("call-touches-precompiles-and-selfdestructs-to-an-unused-address", func(w *harness.World) []*harness.TxSpec {
+			return []*harness.TxSpec{OLVMCreate(w, w.EthUsers[0], 0, zero, InitCode(SweepRuntime))}
+		}, func(w *harness.World) *harness.TxSpec {
+			t := OLVMCall(w, w.EthUsers[0], ContractAddr(w.EthUsers[0], 0), 1, zero, nil)
+			t.Fee.Gas = 300000
+			return t
+		}, Entry{Changed: []string{"keeper_"}}),
 	}
 }
 
@@ -446,6 +457,30 @@ func bidEntries() []Entry {
 				After: 5,
 			},
 			Changed: []string{"extBidConvActive"}, FinalHas: []string{"extBidConvExpired"}, FinalLacks: []string{"extBidConvActive", "extBidOffer_ACTIVE"},
+		},
+		{
+			// a long-lived conversation (bidder B) and a short-lived one (bidder C) on one domain; the short one
+			// expires through the block hooks, later B cancels the long one. Every gap of this history is a state in
+			// which a closing bid transaction is VALID while another conversation's deadline is about to pass: the
+			// expiry hooks iterate the shared conversation store "wherever it points". (Added after a seeded
+			// change - CloseBidConv leaving the shared store on the closed-state prefix - was not seen by the
+			// mempool-isolation check: no history had a closing transaction that was valid before an expiry.)
+			Scenario: &harness.Scenario{
+				Kind:  bid_action.BID_CANCEL.String(),
+				Note:  "multi-cancel-one-conversation-after-another-one-expired",
+				World: func() *harness.World { return harness.NewWorld("bid-cancel-after-expiry", 4, 3) },
+				Prefix: func(w *harness.World) []harness.BlockSpec {
+					bs, _ := bidOpen(w, 40)
+					bs = append(bs, blk(BidCreate("", w.Users[0].Addr, bidDomain, bid_data.BidAssetOns, w.Users[2], olt(25), bidDeadline(w, 7), "bid2")))
+					return append(bs, blk(), blk(), blk(), blk())
+				},
+				Target: func(w *harness.World) *harness.TxSpec {
+					_, id := bidOpen(w, 40)
+					return BidCancel(id, w.Users[1], "cancel")
+				},
+				After: 2,
+			},
+			Changed: []string{"extBidConvCancelled"}, FinalHas: []string{"extBidConvCancelled", "extBidConvExpired"}, FinalLacks: []string{"extBidConvActive"},
 		},
 		bidScenario(bid_action.BID_CONTER_OFFER, "counter-offer", nil, func(w *harness.World, id bid_data.BidConvId) *harness.TxSpec {
 			return BidCounterOffer(id, w.Users[0], olt(30), "counter")
